@@ -61,10 +61,10 @@ def _interp(ll):
 def worker_task(task):
     """explore the subtree below a decision prefix for at most `slice_s` seconds; hand back what is left"""
     import symir, z3
-    ll, entry, prefix, slice_s, sample_quota, max_insns = task
+    ll, entry, prefix, slice_s, sample_quota, max_insns, grace = task
     try:
         it = _interp(ll)
-        it.max_insns = max_insns
+        it.max_insns = max_insns; it.path_grace = grace
         it.stats = collections.Counter()
         q0 = (it.sol.nsat, it.sol.nunsat, it.sol.time)
         samples = []; reached = collections.Counter(); ok_paths = [0]
@@ -90,7 +90,7 @@ def worker_task(task):
                 tmp = ll + '.dec.%d' % os.getpid(); pickle.dump({nm: (d[1], d[2]) for nm, d in it.decoded.items()}, open(tmp, 'wb'), protocol=4); os.replace(tmp, ll + '.dec')
             except Exception: pass
         return {'status': status, 'paths': it.paths, 'pruned': it.pruned, 'left': left, 'violations': it.violations, 'nviol': it.nviol,
-                'viol_count': dict(it.viol_count), 'incomplete': it.incomplete[:3], 'samples': samples, 'reached': dict(reached), 'stats': dict(it.stats),
+                'viol_count': dict(it.viol_count), 'incomplete': it.incomplete[:3], 'preempted': it.preempted, 'samples': samples, 'reached': dict(reached), 'stats': dict(it.stats),
                 'sat': it.sol.nsat - q0[0], 'unsat': it.sol.nunsat - q0[1], 'solver_s': it.sol.time - q0[2], 'wall': time.time() - t0,
                 'called': sorted(it.called)}
     except symir.Inconclusive as e:
@@ -140,7 +140,7 @@ class Scheduler:
             res.append({'status': 'done', 'paths': 0, 'pruned': 0, 'violations': [], 'nviol': 0, 'viol_count': collections.Counter(), 'samples': [], 'reached': collections.Counter(),
                         'stats': collections.Counter(), 'incomplete': [], 'sat': 0, 'unsat': 0, 'solver_s': 0.0, 'cpu_s': 0.0, 'called': set(), 'tasks': 0, 'error': None,
                         't0': time.time(), 'wall': None})
-        queue = collections.deque()
+        queue = collections.deque(); preempt = {}
         for i, j in enumerate(jobs): queue.append((i, [], 2.0))
         def submit():
             for w in s.workers:
@@ -148,7 +148,8 @@ class Scheduler:
                 i, prefix, sl = queue.popleft(); j = jobs[i]
                 if res[i]['status'] in ('error', 'inconclusive'): continue
                 quota = max(0, j.get('samples', 8) - len(res[i]['samples']))
-                try: w['c'].send((j['ll'], j['entry'], prefix, sl, quota, j.get('max_insns', 3_000_000)))
+                grace = 150.0 * (4 ** min(preempt.get((i, tuple(prefix)), 0), 2))
+                try: w['c'].send((j['ll'], j['entry'], prefix, sl, quota, j.get('max_insns', 3_000_000), grace))
                 except Exception: continue
                 w['busy'] = (i, sl); w['t0'] = time.time()
         def absorb(i, r):
@@ -163,6 +164,10 @@ class Scheduler:
             R['reached'].update(r['reached']); R['stats'].update(r['stats'])
             R['sat'] += r['sat']; R['unsat'] += r['unsat']; R['solver_s'] += r['solver_s']; R['cpu_s'] += r['wall']; R['called'].update(r['called'])
             nleft = len(r['left'])
+            if r.get('preempted') and r['left']:
+                # the last prefix is a path that outlived slice + grace: it gets a longer grace next time, three strikes and the job is inconclusive
+                k = (i, tuple(r['left'][-1])); preempt[k] = preempt.get(k, 0) + 1
+                if preempt[k] > 3: R['status'] = 'inconclusive'; R['error'] = 'one path does not finish within %d s' % int(150 * 16)
             for p in r['left']: queue.append((i, p, 8.0 if nleft < 4 * s.nproc else 20.0))
         submit()
         while any(w['busy'] is not None for w in s.workers) or queue:
